@@ -709,3 +709,56 @@ def _make_flip(attr, state):
 for _a in ("flipH", "flipV"):
     for _st in ("no a:xfrm", "attribute absent", "1", "true", "0", "false"):
         _make_flip(_a, _st)
+
+
+# ---------------------------------------------------------------------------------------------------------
+# the element a freeform is written as carries exactly the position and size it was asked for (zero extents included)
+
+
+def _replay_new_freeform(model, rec):
+    from pptx.util import Emu
+
+    for pts, what in (([(0, 0), (0, 100)], "vertical line"), ([(0, 0), (100, 0)], "horizontal line"), ([(5, 5), (5, 5)], "one point twice")):
+        slide = native.blank_slide()
+        fb = slide.shapes.build_freeform(pts[0][0], pts[0][1])
+        fb.add_line_segments(pts[1:], close=False)
+        shp = fb.convert_to_shape(10, 20)
+        xs, ys = [p[0] for p in pts], [p[1] for p in pts]
+        want = (10 + min(xs), 20 + min(ys), max(xs) - min(xs), max(ys) - min(ys))
+        got = (shp.left, shp.top, shp.width, shp.height)
+        w, h = int(shp._element.xpath(".//a:pathLst/a:path/@w")[0]), int(shp._element.xpath(".//a:pathLst/a:path/@h")[0])
+        if got != want or (w, h) != want[2:]:
+            return {"confirmed": True, "witness_class": "freeform-bounds", "detail": "freeform %s %s: shape reports %s (path extents %s), its bounding box is %s" % (what, pts, got, (w, h), want)}
+    return _replay_freeform(model, rec)
+
+
+@contract("C17", "C17.oxml.shapes.autoshape.CT_Shape.new_freeform_sp", replay=_replay_new_freeform)
+def _new_freeform_sp(c):
+    """the p:sp written for a freeform has a:off and a:ext exactly as given -- for all integers, zero included (the markup text handed to
+    the parser is inspected: the four numbers are the decimal text of the four arguments)."""
+    from pyvc.engine import FmtInt, SObj, SStr
+    from pptx.oxml.shapes.autoshape import CT_Shape
+
+    seen = []
+    c.summaries["pptx.oxml.shapes.autoshape:parse_xml"] = lambda it, a, k: (seen.append(a[0]), SObj(None, "sp", __external__=True))[1]
+    c.summaries["pptx.oxml:parse_xml"] = c.summaries["pptx.oxml.shapes.autoshape:parse_xml"]
+    x, y, cx, cy, sid = c.int("x"), c.int("y"), c.int("cx"), c.int("cy"), c.int("shape_id")
+    out = c.run(CT_Shape.new_freeform_sp, sid, "Freeform 1", x, y, cx, cy)
+    if out.raised:
+        c.fails("never_raises", "raised %s" % out.exc)
+        return
+    c.ensures("post.one_parse", len(seen) == 1 and isinstance(seen[0], SStr))
+    if not (len(seen) == 1 and isinstance(seen[0], SStr)):
+        return
+    parts = seen[0].parts
+
+    def number_after(prefix):
+        for i, p_ in enumerate(parts[:-1]):
+            if isinstance(p_, str) and p_.endswith(prefix):
+                return parts[i + 1]
+        return None
+
+    for label, prefix, arg in (("off_x", '<a:off x="', x), ("off_y", '" y="', y), ("ext_cx", '<a:ext cx="', cx), ("ext_cy", '" cy="', cy)):
+        piece = number_after(prefix)
+        ok = isinstance(piece, FmtInt) and not getattr(piece, "width", None)
+        c.ensures("post.%s_is_the_argument" % label, z3.BoolVal(False) if not ok else piece.term == arg)
